@@ -11,6 +11,10 @@ Read from the source text (AST) of $VERIF_REPO on every run:
   * every module-level dictionary-like cache that some function mutates, with the discipline of the key
     expressions found at its uses; `coerce_hint_any` is inspected for the `==` validation of a repr hit
     ("repr-raw" / "repr-checked").
+  * the tree-wide cacheability flag of a type-checking expression (`HintTreeCode.is_check_expr_cacheable`): how
+    `sanify_hint_child` combines it with the flag of each child ("and": `&=` / `x = x and …` / `if not …: x = False`;
+    "last": plain assignment of the child's flag; "unknown"), and whether every store into the expression / checker
+    tables (`make_check_expr`, `make_func_checker`) is guarded by an `if` on that flag.
 A cache whose discipline cannot be determined is emitted as "unknown"; Props/C14.lean proves (by `decide`) that
 every discipline that occurs is one for which memo-invisibility is proved, so a newly added id-keyed or
 unclassified cache breaks a table theorem.
@@ -248,12 +252,82 @@ def scan():
     return decorators, sorted(set(sites)), tables, repr_checked
 
 
+TREE_FLAG = 'is_check_expr_cacheable'
+GUARDED_STORES = [('beartype/_check/code/codemain.py', 'make_check_expr', '_HINT_CONF_TO_CHECK_EXPR'),
+                  ('beartype/_check/checkmake.py', 'make_func_checker', 'hint_conf_exception_prefix_to_func_checker')]
+
+
+def _is_self_flag(node) -> bool:
+    return isinstance(node, ast.Attribute) and node.attr == TREE_FLAG and isinstance(node.value, ast.Name) and node.value.id == 'self'
+
+
+def tree_flag_accumulation() -> str:
+    """How HintTreeCode.sanify_hint_child() combines the tree's flag with the flag of the child just sanified."""
+    p = REPO / 'beartype/_check/cls/hint/tree/hinttreecode.py'
+    try:
+        tree = ast.parse(p.read_text())
+    except (OSError, SyntaxError):
+        return 'unknown'
+    kinds = set()
+    for fn in ast.walk(tree):
+        if not (isinstance(fn, ast.FunctionDef) and fn.name == 'sanify_hint_child'):
+            continue
+        for n in ast.walk(fn):
+            if isinstance(n, ast.AugAssign) and _is_self_flag(n.target):
+                kinds.add('and' if isinstance(n.op, ast.BitAnd) else 'unknown')
+            elif isinstance(n, ast.Assign) and any(_is_self_flag(t) for t in n.targets):
+                v = n.value
+                conj = isinstance(v, ast.BoolOp) and isinstance(v.op, ast.And) or isinstance(v, ast.BinOp) and isinstance(v.op, ast.BitAnd)
+                if conj and any(_is_self_flag(x) for x in ast.walk(v)):
+                    kinds.add('and')                       # x = x and child / x = x & child
+                elif isinstance(v, ast.Constant) and v.value is False:
+                    kinds.add('and')                       # if not child: x = False
+                else:
+                    kinds.add('last')
+    if kinds == {'and'}:
+        return 'and'
+    if 'last' in kinds:
+        return 'last'
+    return 'unknown'
+
+
+def ctx_stores_guarded() -> bool:
+    """Is every store into the expression / checker tables lexically inside an `if` testing the cacheability flag?"""
+    for rel, fname, table in GUARDED_STORES:
+        try:
+            tree = ast.parse((REPO / rel).read_text())
+        except (OSError, SyntaxError):
+            return False
+        stores = []
+
+        def go(node, guarded):
+            if isinstance(node, ast.If):
+                g = guarded or any(isinstance(x, ast.Attribute) and x.attr == TREE_FLAG for x in ast.walk(node.test))
+                for ch in node.body:
+                    go(ch, g)
+                for ch in node.orelse:
+                    go(ch, guarded)
+                return
+            if isinstance(node, ast.Assign) and any(isinstance(t, ast.Subscript) and isinstance(t.value, ast.Name) and t.value.id == table
+                                                    for t in node.targets):
+                stores.append(guarded)
+            for ch in ast.iter_child_nodes(node):
+                go(ch, guarded)
+        for fn in ast.walk(tree):
+            if isinstance(fn, ast.FunctionDef) and fn.name == fname:
+                go(fn, False)
+        if not stores or not all(stores):
+            return False
+    return True
+
+
 def lean_str(s: str) -> str:
     return '"' + s.replace('\\', '\\\\').replace('"', '\\"') + '"'
 
 
 def extract() -> dict:
     decorators, sites, tables, repr_checked = scan()
+    tree_flag, ctx_guarded = tree_flag_accumulation(), ctx_stores_guarded()
     id_pinned = all(d != 'id-raw' for d in decorators.values()) and all(d != 'id-raw' for _, d in tables)
     rows = lambda xs: '[\n' + ',\n'.join(f'  ({lean_str(a)}, {lean_str(b)})' for a, b in xs) + ']' if xs else '[]'
     text = ('/- GENERATED on every run by harness/extract/memo.py from the AST of beartype/**/*.py. Do not edit.\n'
@@ -270,9 +344,14 @@ def extract() -> dict:
             f'def memoTables : List (String × String) := {rows(tables)}\n\n'
             f'def memoReprChecked : Bool := {"true" if repr_checked else "false"}\n'
             f'def memoIdPinned : Bool := {"true" if id_pinned else "false"}\n\n'
+            '/-- how sanify_hint_child combines HintTreeCode.is_check_expr_cacheable with a child\'s flag: "and" | "last" | "unknown" -/\n'
+            f'def memoTreeFlag : String := {lean_str(tree_flag)}\n'
+            '/-- every store into _HINT_CONF_TO_CHECK_EXPR / the checker tables is guarded by an `if` on that flag -/\n'
+            f'def memoCtxStoresGuarded : Bool := {"true" if ctx_guarded else "false"}\n\n'
             'end BearVerif.Extracted\n')
     write_if_changed(LEAN / 'BearVerif/Extracted/Memo.lean', text)
-    return {'decorators': decorators, 'sites': sites, 'tables': tables, 'repr_checked': repr_checked, 'id_pinned': id_pinned}
+    return {'decorators': decorators, 'sites': sites, 'tables': tables, 'repr_checked': repr_checked, 'id_pinned': id_pinned,
+            'tree_flag': tree_flag, 'ctx_stores_guarded': ctx_guarded}
 
 
 if __name__ == '__main__':
